@@ -5,6 +5,13 @@ package c05
 import (
 	"bytes"
 	"fmt"
+	"math/big"
+
+	"github.com/ontio/ontology/common"
+	"github.com/ontio/ontology/core/payload"
+	cutils "github.com/ontio/ontology/core/utils"
+	"github.com/ontio/ontology/smartcontract/event"
+	"github.com/ontio/ontology/smartcontract/service/neovm"
 
 	"github.com/ontio/ontology/core/store"
 	"github.com/ontio/ontology/core/types"
@@ -16,6 +23,9 @@ import (
 
 // witnesses runs the named probe, or all of them.
 func witnesses(w *world, only string) {
+	if only == "" || only == "deploy-destroyed" {
+		w.deployDestroyed()
+	}
 	if only == "" || only == "gasprice-2^59" {
 		w.roundZero()
 	}
@@ -54,5 +64,126 @@ func (w *world) roundZero() {
 	c.Note(fmt.Sprintf("gasprice-2^59 witness: no panic (err=%v)", err))
 	if len(obs) == 1 && obs[0] != nil {
 		w.emitPanicCase(in, blk, obs, false)
+	}
+}
+
+// deployDestroyed: a paid Deploy transaction (outside the property's quantifier) of a contract
+// that was destroyed before. HandleDeployTransaction charges the fee through the transaction
+// cache and commits it, then refuses the redeploy and returns without recording GasConsumed or
+// the transfer event. Also one paid deploy of a new contract, to validate the model's success path.
+func (w *world) deployDestroyed() {
+	c := w.c
+	b := vm.NewParamsBuilder(new(bytes.Buffer))
+	b.Emit(vm.PUSH1) // salt (address = hash of the code)
+	b.Emit(vm.DROP)
+	syscall(b, "Ontology.Contract.Destroy")
+	code := b.ToArray()
+	addr := common.AddressFromVmCode(code)
+	dep := func(code []byte, price uint64, by int) (*types.Transaction, error) {
+		mtx, err := cutils.NewDeployTransaction(code, "c05d", "1", "v", "v@v", "destroys itself", payload.NEOVM_TYPE)
+		if err != nil {
+			return nil, err
+		}
+		w.k.InvokeTx(nil, 0, 0) // advance the nonce counter
+		mtx.GasPrice, mtx.GasLimit, mtx.Payer, mtx.Nonce = price, 30000000, w.users[by].Address, uint32(c.Intn(1<<30))
+		if err := ledgerkit.Sign(mtx, w.users[by]); err != nil {
+			return nil, err
+		}
+		return mtx.IntoImmutable()
+	}
+	fail := func(err error) { c.Fail("driver-gen", "deploy witness could be built", nil, err.Error(), nil) }
+	// make sure the payer can pay two deployments (50 ONG each at price 2500)
+	if tx, err := w.transfer(ledgerkit.OngAddr, 0, w.users[1].Address, 200000000000, 0, 30000); err != nil {
+		fail(err)
+		return
+	} else if err := w.setupTx(tx); err != nil {
+		fail(err)
+		return
+	}
+	tx, err := dep(code, 0, 0)
+	if err != nil {
+		fail(err)
+		return
+	}
+	if err := w.setupTx(tx); err != nil {
+		fail(err)
+		return
+	}
+	cb := vm.NewParamsBuilder(new(bytes.Buffer))
+	cb.EmitPushCall(addr[:])
+	call := w.k.InvokeTx(cb.ToArray(), 0, 100000)
+	if err := w.setup(call); err != nil { // the contract destroys itself
+		fail(err)
+		return
+	}
+	other := append([]byte{byte(vm.PUSH1), byte(vm.DROP), byte(vm.PUSH1), byte(vm.DROP)}, code[2:]...)
+	for _, wit := range []struct {
+		name string
+		code []byte
+	}{{"deploy-destroyed", code}, {"deploy-new", other}} {
+		tx, err := dep(wit.code, 2500, 1)
+		if err != nil {
+			fail(err)
+			return
+		}
+		in := &blockInput{Seed: c.Seed, Witness: "deploy-destroyed", Txs: []*txDesc{{Kind: wit.name, Payer: 1, Signer: 1, Price: 2500, Limit: 30000000}}}
+		blk, err := w.k.MakeBlock([]*types.Transaction{tx})
+		if err != nil {
+			fail(err)
+			return
+		}
+		obs := make([]*txObs, 1)
+		if err := walk(w, blk, obs); err != nil {
+			fail(err)
+			return
+		}
+		res, err := w.k.Ledger.ExecuteBlock(blk)
+		c.Eval()
+		if err != nil || len(res.Notify) != 1 {
+			fail(fmt.Errorf("deploy block: %v", err))
+			return
+		}
+		if err := w.k.Ledger.AddBlock(blk, nil, res.MerkleRoot); err != nil {
+			fail(err)
+			return
+		}
+		c.Count("witness:" + wit.name)
+		n, o := res.Notify[0], obs[0]
+		pb, _ := balance(o.PayerRaw)
+		pa, _ := balance(o.PayerAfter)
+		moved := new(big.Int).Sub(pb, pa)
+		reported := new(big.Int).Mul(new(big.Int).SetUint64(n.GasConsumed), scale)
+		if n.State == event.CONTRACT_STATE_FAIL && moved.Cmp(reported) != 0 {
+			c.Fail("deploy:redeploy-destroyed-fee-unreported", "GasConsumed of a failed transaction equals the fee actually moved (Deploy transaction)",
+				in, fmt.Sprintf("GasConsumed=%d events=%d", n.GasConsumed, len(n.Notify)), "fee moved (10^-18 ONG): "+moved.String())
+		}
+		// correspondence case
+		var st []kvPair
+		for k, v := range w.stored {
+			if len(v) > 0 {
+				st = append(st, kvPair{[]byte(k), v})
+			}
+		}
+		sortKV(st)
+		dc := tx.Payload.(*payload.DeployCode)
+		sink := common.NewZeroCopySink(nil)
+		dc.Serialization(sink)
+		a := dc.Address()
+		tbl := func(key string) string {
+			if v, ok := neovm.GAS_TABLE.Load(key); ok {
+				return fmt.Sprintf("(Some %d)", v.(uint64))
+			}
+			return "None"
+		}
+		var fe []string
+		for _, e := range n.Notify {
+			if v, ok := feeEvent(e, tx.Payer); ok {
+				fe = append(fe, hx.CoqN(v))
+			}
+		}
+		c.Case(fmt.Sprintf("CDeploy %s %s %s\n  (mkDep (mkTx %s true %d %d %d false) %s %s)\n  (%d, %d, %s, %d) %s",
+			tbl(neovm.CONTRACT_CREATE_NAME), tbl(neovm.UINT_DEPLOY_CODE_LEN_NAME), coqKV(st),
+			hx.CoqBytes(tx.Payer[:]), tx.GasPrice, tx.GasLimit, len(dc.GetRawCode()), hx.CoqBytes(a[:]), hx.CoqBytes(sink.Bytes()),
+			n.State, n.GasConsumed, hx.CoqList(fe), len(n.Notify), coqKV(writeSet(res.WriteSet))), in)
 	}
 }
